@@ -182,6 +182,63 @@ fn dgrepr(p: &[u8]) -> String {
     format!("L{}h{:016x}", p.len(), h)
 }
 
+/// `err<kind>`; a `!` is appended when the error is not an OS error — every failure of these sinks is the
+/// failure of a socket call, and the sink must return the socket's error itself
+fn sock_err(e: &io::Error) -> String {
+    format!("err{}{}", kind_index(e.kind()), if e.raw_os_error().is_some() { "" } else { "!" })
+}
+
+/// more than 4 GiB through one sink (refused or sent): the byte counters are true totals
+fn run_big(kind: &str) -> String {
+    let (sink, peer) = match build(kind, "-", true) {
+        Some(x) => x,
+        None => return "setup-failed".to_string(),
+    };
+    let (len, n) = if kind == "udp" { (65507usize, 66000u64) } else { (131072usize, 33000u64) };
+    let m = gen_metric(len);
+    let stop = Arc::new(AtomicU64::new(0));
+    // a UDP receiver is drained concurrently so that the loopback queue never fills
+    let reader = if kind == "udp" {
+        let stop = stop.clone();
+        Some(std::thread::spawn(move || {
+            let mut buf = vec![0u8; 70000];
+            while stop.load(Ordering::Acquire) == 0 {
+                if let Peer::Udp(s, _) = &peer {
+                    let _ = s.recv(&mut buf);
+                }
+            }
+            drop(peer);
+        }))
+    } else {
+        drop(peer);
+        None
+    };
+    let (mut ok_b, mut ok_n, mut bad_b, mut bad_n) = (0u64, 0u64, 0u64, 0u64);
+    for _ in 0..n {
+        match catch_unwind(AssertUnwindSafe(|| sink.emit(&m))) {
+            Ok(Ok(k)) => {
+                ok_b += k as u64;
+                ok_n += 1;
+            }
+            Ok(Err(_)) => {
+                bad_b += len as u64;
+                bad_n += 1;
+            }
+            Err(_) => return "panic".to_string(),
+        }
+    }
+    let st = sink.stats();
+    stop.store(1, Ordering::Release);
+    if let Some(r) = reader {
+        let _ = r.join();
+    }
+    if (st.bytes_sent, st.packets_sent, st.bytes_dropped, st.packets_dropped) == (ok_b, ok_n, bad_b, bad_n) && ok_b + bad_b > (1u64 << 32) {
+        "ok".to_string()
+    } else {
+        format!("after-{}-bytes-accepted-{}-refused-the-sink-reports-{}", ok_b, bad_b, fmt_stats(&st))
+    }
+}
+
 fn gen_metric(len: usize) -> String {
     (0..len).map(|i| (b'a' + (i % 26) as u8) as char).collect()
 }
@@ -279,7 +336,7 @@ fn run_sock(kind: &str, cap: &str, nb: bool, drain: &str, ops: &[String]) -> Str
                 let sk = sink.clone();
                 watchdog(move || match catch_unwind(AssertUnwindSafe(|| sk.emit(&m))) {
                     Ok(Ok(n)) => format!("ok{}", n),
-                    Ok(Err(e)) => format!("err{}", kind_index(e.kind())),
+                    Ok(Err(e)) => sock_err(&e),
                     Err(_) => "panic".to_string(),
                 })
             }
@@ -287,7 +344,7 @@ fn run_sock(kind: &str, cap: &str, nb: bool, drain: &str, ops: &[String]) -> Str
                 let sk = sink.clone();
                 watchdog(move || match catch_unwind(AssertUnwindSafe(|| sk.flush())) {
                     Ok(Ok(())) => "ok0".to_string(),
-                    Ok(Err(e)) => format!("err{}", kind_index(e.kind())),
+                    Ok(Err(e)) => sock_err(&e),
                     Err(_) => "panic".to_string(),
                 })
             }
@@ -684,6 +741,13 @@ fn run_cr(kind: &str, n: usize) -> String {
 }
 
 fn run_line(line: &str) -> Option<String> {
+    {
+        let l = line.split(" => ").next().unwrap().trim();
+        let f: Vec<&str> = l.split(' ').collect();
+        if f[0] == "sockbig" && f.len() == 2 {
+            return Some(format!("{} => {}", l, run_big(f[1])));
+        }
+    }
     let line = line.split(" => ").next().unwrap().trim();
     if line.is_empty() || line.starts_with('#') {
         return None;
@@ -809,6 +873,10 @@ fn main() {
         let flushes = (i / 4) % 2 == 1;
         let obs = run_mt(kind, cap, threads, per, flushes);
         writeln!(out, "sockmt {} {} {} {} {} => {}", kind, cap, threads, per, if flushes { 1 } else { 0 }, obs).unwrap();
+        count += 1;
+    }
+    for kind in ["unixgone", "udp"] {
+        writeln!(out, "sockbig {} => {}", kind, run_big(kind)).unwrap();
         count += 1;
     }
     for kind in ["udp", "budp"] {
